@@ -59,6 +59,7 @@ type Engine struct {
 	opaqueDefs    map[string]string // opaque spec function -> defining axiom
 	onAlloc       map[string]string
 	onStoreFlag   map[string]string
+	onAllocEmpty  map[string][]string
 	callers       map[*ssa.Function][]ssa.CallInstruction
 	errflow       map[string]*Contract // explicit error-flow contracts (zz_verif_errflow.go, spec/errflow.spec)
 	errflowOrder  []string
@@ -129,7 +130,7 @@ func (e *Engine) stringConst(x *Exec, s string) string {
 }
 
 func loadEngine(repo, verifDir string, patterns []string, overlay map[string][]byte) (*Engine, error) {
-	e := &Engine{repo: repo, verifDir: verifDir, fns: map[string]*ssa.Function{}, contracts: map[string]*Contract{}, specFns: map[string]*SpecFn{}, specConsts: map[string]string{}, ghosts: map[string]string{}, regions: map[string][]string{}, typeIDs: map[string]int{}, so: newSorts(), wsMemo: map[*ssa.Function]*WriteSet{}, wsBusy: map[*ssa.Function]bool{}, allPkgs: map[string]*types.Package{}, rowOps: map[string]bool{}, mapCards: map[string]string{}, strConsts: map[string]int{}, axioms: map[string][]Clause{}, onStore: map[string]string{}, storeFacts: map[string]predApp{}, ghostByValue: map[string]bool{}, named: map[string]string{}, regionAcc: map[string][]string{}, opaqueDefs: map[string]string{}, onAlloc: map[string]string{}, onStoreFlag: map[string]string{}, errflow: map[string]*Contract{}}
+	e := &Engine{repo: repo, verifDir: verifDir, fns: map[string]*ssa.Function{}, contracts: map[string]*Contract{}, specFns: map[string]*SpecFn{}, specConsts: map[string]string{}, ghosts: map[string]string{}, regions: map[string][]string{}, typeIDs: map[string]int{}, so: newSorts(), wsMemo: map[*ssa.Function]*WriteSet{}, wsBusy: map[*ssa.Function]bool{}, allPkgs: map[string]*types.Package{}, rowOps: map[string]bool{}, mapCards: map[string]string{}, strConsts: map[string]int{}, axioms: map[string][]Clause{}, onStore: map[string]string{}, storeFacts: map[string]predApp{}, ghostByValue: map[string]bool{}, named: map[string]string{}, regionAcc: map[string][]string{}, opaqueDefs: map[string]string{}, onAlloc: map[string]string{}, onStoreFlag: map[string]string{}, onAllocEmpty: map[string][]string{}, errflow: map[string]*Contract{}}
 	// scratch copy of go.mod/go.sum so that the repository is never written
 	tmp, err := os.MkdirTemp("", "govcmod")
 	if err != nil {
@@ -382,7 +383,12 @@ func (e *Engine) loadSpecSMT(path string) error {
 			if t == nil || len(fs) != 4 {
 				return fmt.Errorf("%s:%d: bad onalloc", path, ln+1)
 			}
-			e.onAlloc[e.so.structComp(t)] = fs[3]
+			if fs[2] == "ghostempty" {
+				// ;@onalloc sync.Map ghostempty smhas — the ghost set of a fresh object is empty
+				e.onAllocEmpty[e.so.structComp(t)] = append(e.onAllocEmpty[e.so.structComp(t)], fs[3])
+			} else {
+				e.onAlloc[e.so.structComp(t)] = fs[3]
+			}
 		case "stateinv":
 			e.stateInvs = append(e.stateInvs, predApp{Pred: fs[1], Args: fs[2:]})
 		case "storefact":
